@@ -35,6 +35,10 @@ OpsFull == { Op("full", B, "master", <<>>, 0, FALSE, <<K("elem", Q, "uint", V(3)
              Op("full", B, "master", <<>>, 0, FALSE, <<K("elem", Q, "uint", V(3), <<>>), K("elem", P, "uint", V(2), <<>>)>>),            \* invalid child
              Op("full", A, "master", <<>>, 0, FALSE, <<K("full", B, "master", <<>>, <<K("elem", U, "uint", V(1), <<>>)>>)>>),          \* invalid grandchild
              Op("full", R2, "master", <<>>, 0, FALSE, <<>>),
+             Op("full", R2, "master", <<>>, 0, FALSE, <<K("end", R2, "master", <<>>, <<>>)>>),                                            \* a child ending the Full master itself
+             Op("full", B, "master", <<>>, 0, FALSE, <<K("end", B, "master", <<>>, <<>>), K("end", A, "master", <<>>, <<>>)>>),         \* ... and a master opened before the call
+             Op("full", B, "master", <<>>, 0, FALSE, <<K("start", Cc, "master", <<>>, <<>>), K("elem", U, "uint", V(1), <<>>), K("end", Cc, "master", <<>>, <<>>)>>),   \* Start ... End run of children
+             Op("full", B, "master", <<>>, 0, FALSE, <<K("start", Cc, "master", <<>>, <<>>)>>),                                           \* child left open
              Op("full", A, "master", <<>>, 1, FALSE, <<K("elem", G, "bin", Bin127, <<>>)>>) }                                                 \* body does not fit width 1
 OpsBad == { [El(P, "uint", V(1)) EXCEPT !.unknown = TRUE], Op("rawtag", <<66, 66>>, "raw", <<1>>, 0, FALSE, <<>>),
             Op("rawtag", <<18, 52>>, "raw", <<1>>, 0, FALSE, <<>>), Op("rawtag", <<1>>, "raw", <<>>, 0, FALSE, <<>>) }
@@ -72,7 +76,7 @@ Inv_C19_Class == hist # <<>> =>
          /\ ~PathAllows(S3, LastEv.id, Chain(prev))) => LastEv.res = "unexpected_tag"
 \* C09: one Full item = Start, the children, End (from the same state); deprecated call = option call
 Unfold(op) == <<[op EXCEPT !.k = "start", !.kids = <<>>]>>
-              \o [i \in 1..Len(op.kids) |-> Op(IF op.kids[i].kind = "full" THEN "full" ELSE "elem", op.kids[i].id, op.kids[i].ty, op.kids[i].val, 0, FALSE, op.kids[i].kids)]
+              \o [i \in 1..Len(op.kids) |-> Op(KidK(op.kids[i]), op.kids[i].id, op.kids[i].ty, op.kids[i].val, 0, FALSE, op.kids[i].kids)]
               \o <<En(op.id)>>
 Inv_C09 == hist # <<>> =>
    /\ (LastEv.k = "full" /\ LastEv.res = "ok") => RunOps(S3, prev, Unfold(LastEv), 1) = w
